@@ -52,9 +52,15 @@ theorem C17_no_database_selected (s : Sess) (st : Stmt) (h : routed st = true) (
 /-- **C17.create_existing**: creating a database that exists (names compared in lower case) is an error
 that changes nothing. -/
 theorem C17_create_existing (s : Sess) (name : Bytes) (hv : validDbName name = true)
-    (h : (getDB s (canon name)).isSome = true) :
+    (hne : name.isEmpty = false) (h : (getDB s (canon name)).isSome = true) :
     exec s (.createDatabase name) = (s, .err "dbExists") := by
-  simp [exec, h, hv]
+  simp [exec, h, hv, hne]
+
+/-- **C17.empty_name_refused**: the empty name is no database: CREATE DATABASE and USE refuse it and
+change nothing. -/
+theorem C17_empty_name_refused (s : Sess) :
+    exec s (.createDatabase []) = (s, .err "noDbSelected") ∧ exec s (.use []) = (s, .err "noDbSelected") := by
+  constructor <;> simp [exec, validDbName]
 
 /-- **C17.invalid_name_refused**: a name that is not one plain directory name (`.`, `..`, a path
 separator or NUL inside, more than 255 bytes) is refused by CREATE DATABASE and by USE with an error
@@ -75,8 +81,12 @@ theorem C17_create_new (s s' : Sess) (name : Bytes) (h : exec s (.createDatabase
     cases hv : validDbName name with
     | true => rfl
     | false => simp [exec, hv] at h
+  have hne : name.isEmpty = false := by
+    cases hne : name.isEmpty with
+    | false => rfl
+    | true => simp [exec, hv, hne] at h
   unfold exec at h
-  simp only [hv, Bool.not_true, Bool.false_eq_true, if_false] at h
+  simp only [hv, hne, Bool.not_true, Bool.false_eq_true, if_false] at h
   split at h
   · simp at h
   · rename_i hnone
@@ -102,13 +112,13 @@ theorem C17_create_new (s s' : Sess) (name : Bytes) (h : exec s (.createDatabase
 /-- **C17.use_missing**: selecting a database that does not exist is an error that changes nothing - in
 particular the previously selected database stays selected and open. -/
 theorem C17_use_missing (s : Sess) (name : Bytes) (hv : validDbName name = true)
-    (h : getDB s (canon name) = none) :
+    (hne : name.isEmpty = false) (h : getDB s (canon name) = none) :
     exec s (.use name) = (s, .err "dbNotExist") := by
-  simp [exec, h, hv]
+  simp [exec, h, hv, hne]
 
 /-- **C17.use_current**: re-selecting the selected database changes nothing at all. -/
 theorem C17_use_current (s : Sess) (name : Bytes) (hv : validDbName name = true)
-    (h : (getDB s (canon name)).isSome = true)
+    (hne : name.isEmpty = false) (h : (getDB s (canon name)).isSome = true)
     (hc : s.cur = some (canon name)) : exec s (.use name) = (s, .ok) := by
   have hn : (getDB s (canon name)).isNone = false := by
     cases hg : getDB s (canon name) <;> simp_all
@@ -116,20 +126,20 @@ theorem C17_use_current (s : Sess) (name : Bytes) (hv : validDbName name = true)
   | mk dbs cur =>
     simp only at hc
     subst hc
-    simp [exec, hn, hv]
+    simp [exec, hn, hv, hne]
 
 /-- **C17.use_other**: selecting another existing database succeeds, selects it, keeps the set of
 databases, and leaves every database other than the previously selected one (which is closed, i.e.
 flushed) exactly as it was. -/
 theorem C17_use_other (s : Sess) (name : Bytes) (hv : validDbName name = true)
-    (h : (getDB s (canon name)).isSome = true) :
+    (hne : name.isEmpty = false) (h : (getDB s (canon name)).isSome = true) :
     (exec s (.use name)).2 = .ok ∧ (exec s (.use name)).1.cur = some (canon name) ∧
     names (exec s (.use name)).1 = names s ∧
     ∀ m, s.cur ≠ some m → getDB (exec s (.use name)).1 m = getDB s m := by
   have hn : (getDB s (canon name)).isNone = false := by
     cases hg : getDB s (canon name) <;> simp_all
   unfold exec
-  simp only [hv, Bool.not_true, hn, Bool.false_eq_true, if_false]
+  simp only [hv, hne, Bool.not_true, hn, Bool.false_eq_true, if_false]
   refine ⟨by trivial, by trivial, ?_, ?_⟩
   · show names _ = names s
     split
@@ -187,14 +197,17 @@ theorem exec_create_fst (s : Sess) (n : Bytes) (h : (exec s (.createDatabase n))
   cases hv : validDbName n with
   | false => simp [exec, hv]
   | true =>
-    unfold exec at h ⊢
-    simp only [hv, Bool.not_true, Bool.false_eq_true, if_false] at h ⊢
-    split
-    · rfl
-    · split
-      · rename_i hx _ _ _ hy
-        simp [hx, hy] at h
+    cases hne : n.isEmpty with
+    | true => simp [exec, hv, hne]
+    | false =>
+      unfold exec at h ⊢
+      simp only [hv, hne, Bool.not_true, Bool.false_eq_true, if_false] at h ⊢
+      split
       · rfl
+      · split
+        · rename_i hx _ _ _ hy
+          simp [hx, hy] at h
+        · rfl
 
 theorem names_exec (s : Sess) (st : Stmt) :
     names (exec s st).1 = names s ++ created [st] [(exec s st).2] := by
@@ -218,12 +231,15 @@ theorem names_exec (s : Sess) (st : Stmt) :
     cases hv : validDbName n with
     | false => rw [(C17_invalid_name_refused s n hv).2]; simp [created]
     | true =>
-      by_cases h : (getDB s (canon n)).isSome = true
-      · have := (C17_use_other s n hv h).2.2.1
-        cases ho : (exec s (.use n)).2 <;> simp [this, created]
-      · have hn : getDB s (canon n) = none := by
-          cases hg : getDB s (canon n) <;> simp_all
-        rw [C17_use_missing s n hv hn]; simp [created]
+      cases hne : n.isEmpty with
+      | true => simp [exec, hv, hne, created]
+      | false =>
+        by_cases h : (getDB s (canon n)).isSome = true
+        · have := (C17_use_other s n hv hne h).2.2.1
+          cases ho : (exec s (.use n)).2 <;> simp [this, created]
+        · have hn : getDB s (canon n) = none := by
+            cases hg : getDB s (canon n) <;> simp_all
+          rw [C17_use_missing s n hv hne hn]; simp [created]
   | showDatabases => simp [exec, created]
   | createTable name cols =>
     have := (C17_frame s (.createTable name cols) rfl).2.1
